@@ -505,7 +505,9 @@ def check_nugget(case, rec):
                 rec.exclude("oracle_outside_normalizer_range")
                 return
             amp = 1.0 if cfg.get("norm", "None") == "None" else 4.0 * (1.0 + float(np.max(np.abs(cond_val))))
-            tol = max(1e-7, 1e-12 * kc_) * (1.0 + float(np.max(np.abs(cond_val)))) * amp * (1.0 + 1e3 * math.sqrt(64 * np.finfo(float).eps * kc_))
+            # at the data the variance is zero up to rounding d ~ 64 eps cond sill; it enters as sqrt(d) * N(0,1) noise
+            sill_ = spec["var"] + spec["nugget"]
+            tol = (max(1e-7, 1e-12 * kc_) * (1.0 + float(np.max(np.abs(cond_val)))) + 6.0 * math.sqrt(64 * np.finfo(float).eps * kc_ * sill_)) * amp
             err = float(np.max(np.abs(f[nt:] - cond_val)))
             rec.discrepancy("honours_data_nugget", err, tol)
             require(
